@@ -46,9 +46,13 @@ class Rule :
                     return
 
             if hasattr(self, 'path_namespace'):
-                if (
-                    m.path is None
-                    or not m.path.startswith(self.path_namespace)
+                # the namespace itself or a descendant of it: /a/bc is not
+                # beneath /a/b
+                ns = self.path_namespace
+                if m.path is None or not (
+                    m.path == ns
+                    or ns == '/'
+                    or m.path.startswith(ns + '/')
                 ):
                     return
 
